@@ -19,6 +19,8 @@ type Params struct {
 	SetHook func(func(uint32)) // installs the yield hook (verifsim.Hook)
 	// SetBlockHook installs the lock-contention hook (verifsim.BlockHook)
 	SetBlockHook func(func(uint32))
+	// SetSyncHook installs the synchronisation-point hook (verifsim.SyncHook)
+	SetSyncHook func(func(uint32))
 	Idx     int
 }
 
@@ -148,10 +150,16 @@ func Run(run *kernel.Run, p Params) {
 	if p.SetBlockHook != nil {
 		p.SetBlockHook(s.Blocked)
 	}
+	if p.SetSyncHook != nil {
+		p.SetSyncHook(s.SyncPoint)
+	}
 	s.Run()
 	p.SetHook(nil)
 	if p.SetBlockHook != nil {
 		p.SetBlockHook(nil)
+	}
+	if p.SetSyncHook != nil {
+		p.SetSyncHook(nil)
 	}
 
 	run.Res.Steps = int(s.Steps)
@@ -175,6 +183,9 @@ func Run(run *kernel.Run, p Params) {
 		run.Res.Probes["handoff_points_reached_by_library_goroutines"] += s.Foreign
 		run.Res.FreeRun = true
 	}
+	if s.SyncSwitches > 0 {
+		run.Res.Faults["switch_forced_at_synchronisation_point"] += s.SyncSwitches
+	}
 	if s.LockWaits > 0 {
 		run.Res.Faults["lock_contention_deschedules"] += s.LockWaits
 	}
@@ -192,7 +203,13 @@ func Run(run *kernel.Run, p Params) {
 	run.Res.Cfg["hit_sites"] = hitBitmap(s.SiteHits)
 
 	if s.Deadlock {
-		run.Violate("C20", "deadlock", "conc", 0, "tasks did not finish within 20 s after the scheduler released everything (free-run fallback): a caller blocks forever")
+		var waiting []string
+		for _, tk := range s.Tasks {
+			if tk.BlockedSite != 0 {
+				waiting = append(waiting, fmt.Sprintf("task %d at lock site %d", tk.ID, tk.BlockedSite))
+			}
+		}
+		run.Violate("C20", "deadlock", "conc", 0, "tasks did not finish after the scheduler released everything (free-run fall-back): a caller blocks forever; last seen waiting for a lock: %s (site numbers are those of sites.json of the instrumenter; ./check --replay prints file:line)", strings.Join(waiting, ", "))
 		return
 	}
 	if s.StepCapHit {
